@@ -23,6 +23,15 @@ add("C01",
     "Trusts the Fraction lattice model and the stated FP/region tolerances; face probes use a set-valued "
     "oracle (either neighbour).")
 
+add("C02",
+    "Hypothesis-generated value specifications against a reference evaluator at exact cell centres; "
+    "sampling/line/iteration compared with the stored array (set-valued on faces)",
+    "Generated-input search over meshes x subregions x nvdim x dtype x specification kind x construction path; "
+    "the oracle evaluates the specification itself at the exact cell centres (first-listed subregion wins, then "
+    "default; field sources set-valued on ties); rejected specifications must leave the array byte-identical.",
+    "Trusts the reference evaluator and the exact lattice; callables are smooth polynomials compared at rtol 1e-12; "
+    "dtype of field-source results and dimension name 'r' in Field.line are not asserted (DESIGN section 6).")
+
 PENDING = {}
 
 
